@@ -74,3 +74,37 @@ def run(db, res, rule='C01.n'):
             else:
                 res.holds(rule, key, 'every dereference that reaches this NULL test is separated from it by an assignment', co[0]['loc'])
     res.floor(rule, 'NULL tests examined', ntests, 300)
+
+
+def run_strncpy(db, res, rule='C01.o'):
+    """strncpy(D, S, N) leaves D without a terminating NUL when S has N or more characters.  Before D is handed to anything
+    that reads a C string (any later call that takes D) a NUL must have been stored into D on every path, or D was cleared
+    before the copy."""
+    res.rule(rule, 'strncpy does not terminate: after strncpy(D, S, N) into a local array, every path to the next call that takes D stores a NUL into D first (D[k] = 0), unless D was zero-filled before the copy')
+    n = 0
+    for name, f in sorted(db.fn.items()):
+        if not f.blocks or f.loc.startswith('htp/lzma'):
+            continue
+        for b, i, c in f.calls('strncpy'):
+            d0 = strip(c['args'][0])
+            if d0 is None or d0.get('k') != 'var':
+                continue
+            D = d0['name']
+            n += 1
+            cleared = any(c2.get('callee') == 'memset' and P.K(c2['args'][0]) == D and P.K(c2['args'][1]) == '0' for b2, i2, c2 in f.calls('memset'))
+            bad = []
+
+            def visit(bb, ii, st):
+                if any(w.get('k') == 'assign' and (strip(w['l']) or {}).get('k') == 'index' and P.K(strip(w['l'])['base']) == D and P.K(w['r']) in ('0', "'\\0'") for w in nodes(st, lambda y: y.get('k') == 'assign')):
+                    return True
+                for c2 in nodes(st, lambda y: y.get('k') == 'call'):
+                    if c2 is not c and any(any(v.get('name') == D for v in nodes(a, lambda y: y.get('k') == 'var')) for a in c2.get('args', [])):
+                        bad.append(c2)
+                        return True
+                return False
+            C.forward(f, (b, i), visit)
+            # the statement of the copy itself may nest another use; ignore
+            key = '%s:strncpy(%s)' % (name, D)
+            res.check(cleared or not bad, rule, key, 'terminated before it is read as a string',
+                      '%s copies with strncpy into %s and hands it to %s() with no NUL stored in between: when the source has at least as many characters as the count the array is not terminated, and %s reads (or appends) past its end' % (name, D, bad[0].get('callee') if bad else '', bad[0].get('callee') if bad else ''), (bad[0] if bad else c)['loc'])
+    res.floor(rule, 'strncpy sites', n, 1)
